@@ -36,4 +36,33 @@ PROPS = {
         "level_text": "Theorems (Props/C15.lean) for every path map and lookup path: exact key wins; otherwise the single entry agreeing on all shared trailing components, none if several; the result is never one of several candidates and does not depend on entry order. Tied to hierarchy.rs by running Hierarchy::get_key_value and the model on generated maps; the query-level half (ambiguous unqualified columns across joins are refused, USING/NATURAL columns resolve) is an oracle on Relation::try_from.",
         "level_note": "Trusted: Lean kernel; the harness; sqlparser. Modelled, not verified: sql/relation.rs scope composition (oracle only). A panic on an ambiguous reference counts as a refusal for C15 and is reported under C18.",
     },
+    "C13": {
+        "lean_modules": ["QrlewModel.Props.C13"],
+        "translators": [{"module": "tr_rules", "func": "gen_rules"}],
+        "streams": [
+            {"name": "rules", "n_quick": 3000, "n_thorough": 150000, "min_per_proc": 100},
+        ],
+        "rule": "rules: generated CTE-chain queries (maps, DP-supported and unsupported reduces, joins, unions; depth 1-3) over protected (users, orders via foreign key) and public (products) tables, "
+                "with/without synthetic data, Soft/Hard; compared: rules per node vs generated table, eliminated rule sets, the full list of derivations, chosen derivation and score for both entry points, Ok/Err of the real entry points; "
+                "non-trivial = at least 2 consistent derivations",
+        "trusted_base": COMMON_TRUST + ["Visitor DAG traversal modelled as tree recursion (generated queries have no shared sub-relations)", "the harness replicates the entry points' filter + max_by on the real selection to observe the chosen derivation"],
+        "assumptions": ["rule arities match node arities (the setter never produces a unary rule on a join); an index panic on a wrong arity is not modelled"],
+        "technique": "Lean 4 proof generic in the rule table (select∘eliminate = consistent derivations; arg-max optimal) + correspondence of eliminate/select/choose with the real visitors + brute-force labelling oracle",
+        "level_text": "Theorems (Props/C13.lean) for every tree and every assignment of candidate rules: selection after elimination enumerates exactly the consistent derivations; elimination keeps exactly the rules that root some consistent derivation; the compiler answers 'unreachable' iff no consistent derivation has an acceptable root; the chosen derivation is consistent, acceptable and score-maximal. Tied to rewriting_rule.rs / rewriting/mod.rs by comparing, on generated queries, the real eliminator/selector/score/entry points with the model, node by node and derivation by derivation.",
+        "level_note": "Trusted: Lean kernel; harness; the translator dump of the rule table. Modelled, not verified: parameters of rules (only labels are modelled); shared sub-relations (Arc DAG) are treated as trees.",
+    },
+    "C02": {
+        "lean_modules": ["QrlewModel.Props.C02"],
+        "translators": [{"module": "tr_rules", "func": "gen_rules"}],
+        "streams": [
+            {"name": "rules", "n_quick": 3000, "n_thorough": 150000, "min_per_proc": 100},
+        ],
+        "rule": "same generated queries as C13; additionally the relation returned by the real rewrite_with_differential_privacy is walked: every path from the root to a protected base table must cross a noise-adding Map lying above a Reduce; "
+                "the driver checks that every node of the real rule-annotated tree carries exactly the rules of the regenerated table (table_ok); non-trivial = at least 2 consistent derivations",
+        "trusted_base": COMMON_TRUST + ["translator tools/tr_rules.py + harness `dump rules` (probe nodes per kind/config)", "the lineage audit recognises noise by the presence of `random` in a Map's expressions"],
+        "assumptions": ["that a node rewritten by the DP-reduce arm is differentially private is the subject of C01/C03/C04, not of C02"],
+        "technique": "Lean 4 proof generic in the rule table (LocalSafe => no exposed protected leaf under a non-raw root) + `decide` on the table regenerated from the real setter + lineage audit of the rewritten relation",
+        "level_text": "Theorem no_unnoised_path (Props/C02.lean): for any rule table satisfying the decidable local condition LocalSafe, any tree and any consistent derivation whose root is public/published/DP/synthetic, every protected table is replaced by synthetic data or lies below a DP aggregation; generated_local_safe discharges LocalSafe by `decide` for the table regenerated from /repo on every run (4 configurations). The real compiler's output is audited structurally on generated queries.",
+        "level_note": "Trusted: Lean kernel; translator; harness. Modelled, not verified: the Rewriter's match arms are covered only by the lineage audit of its output (a pass-through of a PUP->DP reduce shows up as a missing noise Map).",
+    },
 }
